@@ -78,6 +78,8 @@ def signature(case, res, rec, fam, clause, at):
     # aborted run when there was one: name the abort site
     if crashed and (at > len(ev) or (1 <= at <= len(ev) and ev[at - 1]['e'] == 'PX')):
         return '%s|run-aborted:%s' % (clause, crash_site(res, cli))
+    if clause == 'C02:verdict' and case['o'].get('pm') and not crashed:
+        return 'C02:verdict|post-mortem-run'
     if 1 <= at <= len(ev):
         e = ev[at - 1]
         ctx = e['e']
